@@ -79,7 +79,7 @@ func refRegexp(p pattern) *regexp.Regexp {
 }
 
 func group(line string, idx []int, g int) string {
-	if 2*g+1 >= len(idx) || idx[2*g] < 0 {
+	if g < 0 || g >= len(idx)/2 || idx[2*g] < 0 {
 		return ""
 	}
 	return line[idx[2*g]:idx[2*g+1]]
@@ -220,7 +220,7 @@ func worker(w *runner.W) {
 			panic(err)
 		}
 		ref := refRegexp(p)
-		keys := map[string]*compiled{"{0}": {"{0}"}, "{1}": {"{1}"}, "{2}": {"{2}"}, "{3}": {"{3}"}, "{7}": {"{7}"}, "{@}": {"{@}"}}
+		keys := map[string]*compiled{"{0}": {"{0}"}, "{1}": {"{1}"}, "{2}": {"{2}"}, "{3}": {"{3}"}, "{7}": {"{7}"}, "{99}": {"{99}"}, "{2147483648}": {"{2147483648}"}, "{4611686018427387903}": {"{4611686018427387903}"}, "{4611686018427387904}": {"{4611686018427387904}"}, "{9223372036854775807}": {"{9223372036854775807}"}, "{@}": {"{@}"}}
 		for _, nm := range ref.SubexpNames() {
 			if nm != "" {
 				keys["{n:"+nm+"}"] = &compiled{"{" + nm + "}"}
@@ -348,7 +348,7 @@ func replay(w *runner.W, raw json.RawMessage) {
 		panic(err)
 	}
 	ref := refRegexp(c.Pattern)
-	keys := map[string]*compiled{"{0}": {"{0}"}, "{1}": {"{1}"}, "{2}": {"{2}"}, "{3}": {"{3}"}, "{7}": {"{7}"}, "{@}": {"{@}"}}
+	keys := map[string]*compiled{"{0}": {"{0}"}, "{1}": {"{1}"}, "{2}": {"{2}"}, "{3}": {"{3}"}, "{7}": {"{7}"}, "{99}": {"{99}"}, "{2147483648}": {"{2147483648}"}, "{4611686018427387903}": {"{4611686018427387903}"}, "{4611686018427387904}": {"{4611686018427387904}"}, "{9223372036854775807}": {"{9223372036854775807}"}, "{@}": {"{@}"}}
 	for _, nm := range ref.SubexpNames() {
 		if nm != "" {
 			keys["{n:"+nm+"}"] = &compiled{"{" + nm + "}"}
@@ -363,7 +363,7 @@ func main() {
 		Properties: []string{"C02"},
 		Level:      "exploration",
 		Rule: func(prop, tier string) string {
-			return "11 regexes (optional, nested, alternated, named and empty groups; leftmost-first and POSIX leftmost-longest; case-insensitive) x every line up to 4 (quick) / 5 (thorough) symbols over {a,b,c,B,space,ESC[1m,é}: the real fastregex matcher must return the indices of Go's regexp on that line; color.WrapIndices (what default `filter` prints, colour forced on) with the added codes removed must equal the line; {0} {1} {2} {3} {7} {@} and {name} evaluated through the real extractor context must equal the groups of that match (non-participating and non-existent groups empty); the real binary run over the whole line set per pattern must print exactly the matched lines and honour -I / --posix. Non-trivial = a match with at least one group."
+			return "11 regexes (optional, nested, alternated, named and empty groups; leftmost-first and POSIX leftmost-longest; case-insensitive) x every line up to 4 (quick) / 5 (thorough) symbols over {a,b,c,B,space,ESC[1m,é}: the real fastregex matcher must return the indices of Go's regexp on that line; color.WrapIndices (what default `filter` prints, colour forced on) with the added codes removed must equal the line; {0} {1} {2} {3} {7} {99} {2^31} {2^62-1} {2^62} {2^63-1} {@} and {name} evaluated through the real extractor context must equal the groups of that match (non-participating and non-existent groups empty); the real binary run over the whole line set per pattern must print exactly the matched lines and honour -I / --posix. Non-trivial = a match with at least one group."
 		},
 		Assumptions: func(string) []string {
 			return []string{"lines that themselves contain one of the colour codes WrapIndices adds are not judged for the stripping clause", "PCRE2 builds of fastregex are not covered"}
